@@ -7,6 +7,10 @@ from ..peer import alphabet, CONNECT, EPS_FRAC
 from ..proto import run_single
 
 TOL = 1e-6
+# non-initial states: earlier requests on the same protocol object, followed at once by the explored request
+PRIORS = {'none': (), 'success': (['valid'],), 'rejected@.5T': (['exc@.5T'],), 'exhausted': (['drop'] * 4,),
+          'fragment+valid': (['frag2@.4T'],), 'late-answer': (['valid@1.5T', 'drop', 'drop', 'drop'],),
+          'garbage': (['garbage', 'valid'],), 'rejected,success': (['exc@.9T'], ['valid'])}
 
 
 def monitor(cfg, obs):
@@ -22,11 +26,11 @@ def monitor(cfg, obs):
         out.append(('tx<=R+1', f'{ntx} transmissions'))
     # completion no later than T after the last event of the final attempt (5 s for a connect in progress)
     t1 = obs.t1
-    last = 0.0
+    last = obs.t0
     bound = T
     for e in obs.events:
         t = e[2] if e[0] in ('tx', 'rx', 'connect') else e[1]
-        if t <= t1 + TOL and t >= last:
+        if obs.t0 - TOL <= t <= t1 + TOL and t >= last:
             last = t
             bound = 5.0 if e[0] == 'connect' else T
     if t1 > last + bound + TOL:
@@ -64,7 +68,7 @@ def shrink(cfg, choices, shape, letters, conn_letters, clause):
     def fails(ch):
         ctx = Ctx(ch)
         try:
-            obs = run_single(cfg, ctx, letters, conn_letters, fp=False)
+            obs = run_single(cfg, ctx, letters, conn_letters, fp=False, prior=PRIORS[cfg.get('prior', 'none')])
         except Exception:
             return False
         return any(c == clause for c, _ in monitor(cfg, obs))
@@ -80,7 +84,7 @@ def shrink(cfg, choices, shape, letters, conn_letters, clause):
                     cur = t
                     changed = True
     ctx = Ctx(cur)
-    obs = run_single(cfg, ctx, letters, conn_letters, fp=False)
+    obs = run_single(cfg, ctx, letters, conn_letters, fp=False, prior=PRIORS[cfg.get('prior', 'none')])
     names = [(nm, (letters if nm.startswith('tx') else conn_letters if nm.startswith('connect') else None))
              for nm, _, _ in ctx.trace]
     script = [opts[c] if opts else f'{nm}={c}' for (nm, opts), (_, _, c) in zip(names, ctx.trace)]
@@ -100,7 +104,7 @@ def job(j):
     vio = {}
 
     def run(ctx):
-        return run_single(cfg, ctx, letters, conn_letters)
+        return run_single(cfg, ctx, letters, conn_letters, prior=PRIORS[cfg.get('prior', 'none')])
 
     def on_exec(ctx, obs):
         st.note(ctx, classify(cfg, obs))
@@ -122,8 +126,8 @@ def job(j):
     for (clause,), lst in vio.items():
         choices, cause = lst[0]
         mn, script, obs = shrink(cfg, choices, None, letters, conn_letters, clause)
-        again = monitor(cfg, run_single(cfg, Ctx(mn), letters, conn_letters, fp=False))
-        cell = f"{cfg['transport']}/ka={int(cfg['ka'])}"
+        again = monitor(cfg, run_single(cfg, Ctx(mn), letters, conn_letters, fp=False, prior=PRIORS[cfg.get('prior', 'none')]))
+        cell = f"{cfg['transport']}/ka={int(cfg['ka'])}" + (f"/after:{cfg['prior']}" if cfg.get('prior', 'none') != 'none' else '')
         key = f"{clause}/{cell}/{cause_of(script)}"
         if not any(c == clause for c, _ in again):
             key = f"{clause}/{cell}/order-dependent"
@@ -173,6 +177,17 @@ def run(tier, seed, rep):
             jobs.append((cfg, 'product', depth_of(cfg, ['ok']), letters, ['ok'], None))
             if cfg['transport'] == 'tcp':
                 jobs.append((cfg, 'deviations', 2, letters, conn, None))
+    # non-initial states
+    for tr in ('udp', 'tcp'):
+        for ka in (False, True):
+            for prior in (PRIORS if tier == 'thorough' else ('success', 'rejected@.5T', 'late-answer')):
+                if prior == 'none':
+                    continue
+                cfg = dict(transport=tr, ka=ka, T=1, R=1, cmd='read', prior=prior)
+                jobs.append((cfg, 'product', 2, alphabet(tr), ['ok'], None))
+                if tier == 'thorough':
+                    cfg = dict(transport=tr, ka=ka, T=1, R=2, cmd='read', prior=prior)
+                    jobs.append((cfg, 'deviations', 2, alphabet(tr), CONNECT if tr == 'tcp' else ['ok'], None))
     # R=3 with deviation bound
     for tr in ('udp', 'tcp'):
         for ka in (False, True):
@@ -204,6 +219,6 @@ def run(tier, seed, rep):
 def replay(r):
     cfg = r['cfg']
     ctx = Ctx(r['choices'])
-    obs = run_single(cfg, ctx, r['letters'], r['conn_letters'], fp=False)
+    obs = run_single(cfg, ctx, r['letters'], r['conn_letters'], fp=False, prior=PRIORS[cfg.get('prior', 'none')])
     return dict(script=obs.letters, connects=obs.connects, result=obs.result[:3],
                 tx_times=[t for t, _, _ in obs.txs], done=obs.t1, violations=monitor(cfg, obs))
